@@ -115,6 +115,24 @@ CHECKS = {
    design_ref='DESIGN.md section 6 / C09',
    technique='Coq format model (byte-exact) compared with the implementation + proofs of row exactness + parse-back of every format',
    note=TB + " Partial: injectivity of the string rendering is not proved (covered by parse-back on generated results); encoding/json and encoding/csv are modelled on the alphabet the analysis produces; dot is parsed back only; exposure tables are covered by C06/C07's check."),
+ 'C06': dict(
+   text="Machine-checked proof (Coq), on the model of exposure mode (policy pre-scan, representative peers with unique keys and refinement, evaluation against a representative peer, protected flags, entire-cluster sets, "
+        "exposure_map.go): (1) whenever list produces a report, exposure mode produces the same report (the pre-scan shortcuts change no connection between real peers); (2) 'not protected' iff no NetworkPolicy governs the workload in that direction; "
+        "(3) every reported entry is realizable: for ANY hypothetical pod whose labels and namespace labels satisfy the entry's selectors (any pod at all for entire-cluster) the pointwise NetworkPolicy semantics allows every reported "
+        "connection, a named port of an egress entry meaning that name as the pod declares it and an ingress named port being the workload's own. Tied to /repo by comparing the whole ExposedPeers() result with the model, list --exposure with list, "
+        "and by a realizability probe on the implementation (a pod satisfying a reported entry is added and the real list must allow the reported connections).",
+   design_ref='DESIGN.md section 6 / C06',
+   technique='Coq proof (soundness of exposure entries against the pointwise NetworkPolicy semantics, for all hypothetical pods) + model/implementation correspondence + realizability probe',
+   note=TB + " Assumed of a hypothetical pod: its namespace labels carry kubernetes.io/metadata.name = its namespace (Kubernetes sets it). Focus-workload filtering and ingress-controller lines under --exposure are not in the exposure model (they are C16/C10's)."),
+ 'C07': dict(
+   text="PARTIAL (egress named ports). Machine-checked proof (Coq) on the same model: every rule of a policy governing a workload that matches a hypothetical pod (arbitrary labels, existing or new namespace) is covered - its connections are in the "
+        "entire-cluster entry, or in a reported entry whose selectors the pod satisfies, or the entry's representative peer was refined away, which happens only for selectors made solely of label equalities satisfied by an existing workload "
+        "(the documented omission, proved exactly); de-duplication by key never loses a selector pair, the registered peer stands for every pod the rule entry matches whichever rule generated it, and the containment test that suppresses an "
+        "entry is sound. For egress the covered points are those of the rule's numbered ports (named egress ports: proved for soundness only). Tied to /repo by the model correspondence and by a completeness probe: hypothetical pods are added "
+        "to the input and every connection the real analysis then allows must be covered by an entry of the run without the pod.",
+   design_ref='DESIGN.md section 6 / C07',
+   technique='Coq proof (completeness of representative-peer generation, matching and reporting, with the documented refinement) + model/implementation correspondence + completeness probe',
+   note=TB + " Partial: completeness for named ports of egress rules is checked by the probe and the correspondence, not proved. Four defects of the implementation were repaired by fix: commits (see known_findings.json)."),
  'C10': dict(
    text="Machine-checked proof (Coq) that in the model of ingress_analyzer.go + getIngressAllowedConnections every {ingress-controller} line is the line of a workload targeted by a Route/Ingress of its namespace through a kept Service, "
         "carries exactly the (TCP, n) with n a TCP container port reached through the targetPort (number, or name resolved on the workload; the port when unset) of the designated service port and allowed by the pointwise policy "
